@@ -1,6 +1,7 @@
 """Sidecar contracts on the real functions of /repo (no edit of /repo).  One module per anchored area."""
 MODULES = [
     "c01_single",
+    "c01_compound",
     "c15_tables",
     "c16_bins",
 ]
